@@ -47,7 +47,9 @@ def run(rec, cfg):
         if cfg.out_of_time():
             rec.truncated = True
             break
-        root = RC.parse_start(text)
+        big = src == "big-text"
+        root = RC.parse_start(text, allow_big=big)
+        use = RC.rules_for(src, rules)
         if root is None:
             continue
         rec.arm("start:" + src)
@@ -55,9 +57,9 @@ def run(rec, cfg):
         for depth in range(3):
             nxt = []
             for r in frontier:
-                res = D.apply_everywhere(rec, r, rules, rng, cap=6 if depth == 0 else 2)
+                res = D.apply_everywhere(rec, r, use, rng, cap=6 if depth == 0 else 2)
                 for label, idx, new_root in res:
-                    if new_root is not None and not D.too_big(S.shadow(new_root)):
+                    if new_root is not None and not D.too_big(S.shadow(new_root), big):
                         nxt.append(new_root)
             if not nxt:
                 break
